@@ -167,6 +167,15 @@ def subst(obj: Any, mapping: Dict[str, Any]) -> Any:
 def to_message(wire: Any) -> Any:
     from chuk_mcp.protocol.messages.json_rpc_message import JSONRPCMessage, parse_message
 
+    if isinstance(wire, dict) and wire.get("$form") == "typed":
+        # the specific envelope classes (what parse_message falls back to when the unified class rejects a
+        # message, and what create_response / create_error_response build)
+        import chuk_mcp.protocol.messages.json_rpc_message as J
+
+        w = {k: v for k, v in wire.items() if k != "$form"}
+        if "method" in w:
+            return (J.JSONRPCRequest if "id" in w else J.JSONRPCNotification).model_validate(w)
+        return (J.JSONRPCError if "error" in w else J.JSONRPCResponse).model_validate(w)
     if isinstance(wire, dict) and "$direct" in wire:
         # a message object built directly (bypassing the parser), e.g. an error without 'message'
         return JSONRPCMessage(jsonrpc="2.0", id=wire["id"], error=wire["$direct"])
